@@ -1342,6 +1342,46 @@ func main() {
 				bad+": the transaction of another connection was observed half-done (EXEC is one unit for everybody else, whatever it contains)")
 		}
 	}
+	// ---- part J: connections that select the same database for the first time at the same moment end up in
+	// ONE database: many short attempts (a fresh store each, all connections released together, SELECT n, INCR)
+	if failures == 0 && on("J") {
+		attempts := 120 * *stress
+		for att := 0; att < attempts && failures == 0; att++ {
+			vs := redisemu.VerifNewStore("")
+			n := 6
+			idx := strconv.Itoa(1 + att%15)
+			var wg sync.WaitGroup
+			var arrived int32
+			replies := make([]string, n)
+			sel := toArgv([]string{"SELECT", idx})
+			for w := 0; w < n; w++ {
+				wg.Add(1)
+				go func(w int) {
+					defer wg.Done()
+					cl := vs.NewClient()
+					defer cl.Close()
+					// a spinning barrier: everybody leaves within a fraction of a microsecond
+					atomic.AddInt32(&arrived, 1)
+					for atomic.LoadInt32(&arrived) < int32(n) {
+					}
+					cl.Dispatch(sel)
+					r, _ := cl.Dispatch(toArgv([]string{"INCR", "first-use"}))
+					replies[w] = string(r)
+				}(w)
+			}
+			wg.Wait()
+			seen := map[string]bool{}
+			for _, r := range replies {
+				seen[r] = true
+			}
+			stats["first_select_attempts"]++
+			if len(seen) != n {
+				sort.Strings(replies)
+				fail("first-select", att, []string{fmt.Sprintf("%d connections: SELECT %s; INCR first-use — released together on a store where database %s has never been used", n, idx, idx)},
+					fmt.Sprintf("the INCR replies %q are not 1..%d: the connections do not share one database %s", replies, n, idx))
+			}
+		}
+	}
 	res := map[string]any{"stats": stats, "samples": samples, "failures": failures, "wall_s": time.Since(start).Seconds()}
 	if *out != "" {
 		data, _ := json.MarshalIndent(res, "", " ")
